@@ -10,6 +10,8 @@ import (
 	"vharness/c07"
 	"vharness/c08"
 	"vharness/c09"
+	"vharness/c17"
+	"vharness/c20"
 	"vharness/c14"
 	"vharness/c15"
 	"vharness/conf"
@@ -34,6 +36,8 @@ func init() {
 	add("c07", c07.Harnesses)
 	add("c08", c08.Harnesses)
 	add("c09", c09.Harnesses)
+	add("c17", c17.Harnesses)
+	add("c20", c20.Harnesses)
 	add("c14", c14.Harnesses)
 	add("c15", c15.Harnesses)
 	add("conf", conf.Harnesses)
